@@ -65,7 +65,7 @@ class LE(G.E):
 
 
 def budget(tier: str) -> int:
-    return 400 if tier == "quick" else 8000
+    return 800 if tier == "quick" else 12000
 
 
 def generate(rng, tier, n):
